@@ -780,7 +780,14 @@ PRED_GRAFTS = {
     "cmp_is": "{a} is {b}",
 }
 ROW_GRAFTS = ["raw_object", "raw_collection", "column_count_few", "column_count_many"]
+_BLK = lambda name, line: {"metadata_type": "inject_code", "name": name, "body_includes": [line]}
+_JOB = lambda name, line, deps=(): {"metadata_type": "add_job_script", "name": name, "script": [line], "depends_on": list(deps)}
 MD_GRAFTS = {
+    # conflicting duplicates that are NOT in first position (same name, different content)
+    "md_inject_conflict_later": [_BLK("first", "a.h"), _BLK("dup", "b.h"), _BLK("dup", "c.h")],
+    "md_inject_conflict_mixed": [_JOB("j0", "x = 1"), _BLK("dup", "b.h"), _JOB("j1", "y = 2"), _BLK("dup", "c.h")],
+    "md_job_conflict_later": [_JOB("j0", "x = 1"), _JOB("dup", "y = 1"), _JOB("dup", "y = 2")],
+    "md_job_missing_dependency": [_JOB("j0", "x = 1", ["nothere"])],
     "md_unknown_type": {"metadata_type": "bogus_type", "name": "x"},
     "md_missing_type": {"name": "x"},
     "md_bad_inject_field": {"metadata_type": "inject_code", "name": "blk", "bogus_field": ["int x;"]},
@@ -797,7 +804,8 @@ def gen_grafted(rng: random.Random, uni: Universe, kind: str, depth: int = 2):
         if kind in MD_GRAFTS:
             src, q = g.query()
             q.feat.add("graft:" + kind)
-            return src, q, [MD_GRAFTS[kind]]
+            g_md = MD_GRAFTS[kind]
+            return src, q, (list(g_md) if isinstance(g_md, list) else [g_md])
         if kind in ROW_GRAFTS:
             v = g.q.var("e")
             g.cur_event = v
